@@ -9,19 +9,16 @@ from props.common import BASE_TRUSTED
 
 PROP = 'C14'
 _PAIRS = ['radius', 'thickness', 'index', 'asphere', 'conic', 'tilt', 'decenter', 'poly', 'base']
+_IDENTITY = ['conic', 'tilt', 'decenter', 'poly', 'base', 'thickness', 'index']   # one-argument kernels checked in one batch
 KERNELS = ([p + s for p in _PAIRS for s in ('_scale', '_inverse_scale')]
            + ['radius_get_value', 'conic_get_value', 'thickness_get_value', 'index_get_value',
               'bounds_radius', 'bounds_thickness', 'bounds_index', 'bounds_asphere', 'bounds_identity',
               'operand_delta', 'operand_fun'])
-THEOREMS = ['C14_radius_roundtrip', 'C14_thickness_roundtrip', 'C14_index_roundtrip', 'C14_asphere_roundtrip',
-            'C14_identity_roundtrips', 'C14_radius_scale_units', 'C14_thickness_scale_units',
-            'C14_index_scale_units', 'C14_asphere_scale_units', 'C14_scale_inverse', 'C14_scale_mono',
-            'C14_set_get', 'C14_set_get_other', 'C14_bounds_units', 'C14_bounds_impl_scaled',
-            'C14_merit_is_sum', 'C14_fun_is_merit', 'C14_fixed_state_is_returned_solution',
+THEOREMS = ['C14_scale_roundtrips', 'C14_scale_units', 'C14_scale_mono', 'C14_faithful_handle',
+            'C14_bounds_in_value_units', 'C14_merit_function', 'C14_fixed_state_is_returned_solution',
             'C14_fixed_merit_is_returned_objective', 'C14_fixed_not_worse', 'C14_fixed_within_bounds',
-            'C14_fixed_pickups_solves_satisfied', 'C14_impl_state_is_last_parent_eval',
-            'C14_impl_state_workers_only', 'C14_undo_restores', 'C14_undo_restores_impl_partial',
-            'C14_upd_pickups_frame', 'C14_upd_pickups_dep']
+            'C14_fixed_pickups_solves_satisfied', 'C14_impl_state', 'C14_undo_restores',
+            'C14_undo_restores_impl_partial', 'C14_upd_pickups_hypotheses']
 COQ_TARGETS = ['Model/M_C14.vo', 'Lemmas/L_C14.vo']
 TRUSTED_BASE = BASE_TRUSTED + [
     'hand model coq/Model/M_C14.v (lens = map from parameter coordinates to values; optimise/undo state machine), '
@@ -86,6 +83,8 @@ def kernel_cases(ctx):
     g = ctx.gen
     n = ctx.n(60, 1500)
     for p in _PAIRS:
+        if p in _IDENTITY:
+            continue          # batched in system_checks (identity-scale-kernels): one process instead of ten
         for s in ('_scale', '_inverse_scale'):
             if p == 'asphere':
                 cases = [[v * 10.0 ** (-g.r.randint(0, 12)), g.r.randint(0, 6)] for v in _vals(g, n)]
@@ -724,7 +723,9 @@ def opt_oracle(c, o, bad, ci, hist):
                 out.append({'case': ci, 'clause': 'model-fixed', 'frontend': fe, 'step_index': si, 'violates_property': False,
                             'replay': {'mode': 'opt', 'case': c}})
             # contract of the external minimiser (validated, not assumed silently)
-            if log:
+            if log and d07:
+                hist['contract-not-checked(D07 configuration)'] = hist.get('contract-not-checked(D07 configuration)', 0) + 1
+            elif log:
                 if not any(all(a == b for a, b in zip(p, x)) and (f == fun or near_merit(f, fun, 1e-12)) for p, f in log) \
                         and not any(all(near(a, b, 1e-15) for a, b in zip(p, x)) and near_merit(f, fun, 1e-12) for p, f in log):
                     out.append({'case': ci, 'clause': 'contract-xstar-evaluated', 'frontend': fe, 'step_index': si,
@@ -780,8 +781,38 @@ def run_opt_cases(cases, tag):
 # ---------------------------------------------------------------------------------------------
 # system checks
 # ---------------------------------------------------------------------------------------------
+def check_identity_kernels(ctx):
+    g = ctx.gen
+    cases = []
+    for p in _IDENTITY:
+        for sfx in ('_scale', '_inverse_scale'):
+            m = ctx.manifests.get(p + sfx)
+            if m:
+                cases.append({'kernel': p + sfx, 'file': m['file'], 'cls': m['cls'], 'func': m['func'],
+                              'xs': [float(v).hex() for v in _vals(g, ctx.n(40, 400))]})
+    obs = vlib.run_python(HARNESS, {'mode': 'kern', 'cases': cases})
+    B = Bools()
+    dis = []
+    n = 0
+    for c, o in zip(cases, obs):
+        if 'err' in o:
+            dis.append({'clause': 'kernel', 'kernel': c['kernel'], 'error': o, 'violates_property': False})
+            continue
+        for i, (x, y) in enumerate(zip(c['xs'], o['ok'])):
+            n += 1
+            B.add((c['kernel'], i), f'same (k_{c["kernel"]} FOps {fx(hx(x))}) {fx(hx(y))}')
+    bad = B.run('C14i', shard=200)
+    dis += [{'clause': 'kernel', 'kernel': b[0], 'input': cases[[c['kernel'] for c in cases].index(b[0])]['xs'][b[1]],
+             'violates_property': False} for b in sorted(bad)]
+    return {'name': 'batched-scale-kernels', 'n': n, 'nontrivial': n, 'samples': [], 'disagreements': dis}
+
+
 def system_checks(ctx):
     rng = random.Random(ctx.seed * 31 + 14)
+    try:
+        yield check_identity_kernels(ctx)
+    except RuntimeError as e:
+        yield {'name': 'batched-scale-kernels', 'n': 0, 'error': str(e)}
     # (a) handles
     cases = gen_handle_cases(rng, ctx.n(30, 400))
     res = {'name': 'variable-handles-vs-model', 'n': len(cases), 'nontrivial': 0, 'samples': [], 'disagreements': []}
